@@ -37,6 +37,7 @@ theorem C27_no_unacked_drop (s : St) (e : Ev) (hr : s.qos.reliable = true) (sn :
     refine processPending_evicted _ now sn hm ?_
     rw [(checkTimeout_frame _ now).1, (removeStale_frame s now).1]; exact hr
   | matchReader rid rel tl => simp [step, Out.none] at hm
+  | unregister k ts now => simp [step] at hm
 
 /-- the same along every run: no event list makes a reliable writer evict an unacknowledged sample -/
 theorem C27_no_unacked_drop_run (q : Qos) (hr : q.reliable = true) (evs : List Ev) (e : Ev) (sn : Nat)
@@ -142,6 +143,7 @@ theorem C27_timeout_only_at_expiry (s : St) (e : Ev) (h : (step s e).2.reply = s
           · exact ⟨now, p, ex, rfl, rfl, hx, hn⟩
           · simp [hn] at hc
   | matchReader rid rel tl => simp [step, Out.none] at h
+  | unregister k ts now => simp [step] at h
 
 /-- C27 (Ok only after acknowledgement): when process_pending_write_samples completes a parked write (any answer),
     either the instance is no longer full, or the writer is not RELIABLE, or the oldest sample of the instance has
@@ -210,6 +212,91 @@ theorem C27_pending_kept (s : St) (e : Ev) (p : Pending) (hp : s.pending = some 
       rw [hc1] at h ⊢
       exact processPending_pending_kept _ now p (hrp now) h
   | matchReader rid rel tl => simp [step, matchReader, hp]
+  | unregister k ts now =>
+    simp only [step]
+    rw [(unregisterW_frame _ k ts now).2.1]; exact hrp now
+
+/-- C27 (the expiry of a blocked write is taken from the CLOCK, whatever the source timestamp): a write that has
+    to wait at clock value `now` with max_blocking_time `b` is answered Timeout by a worker iteration at time `t`
+    exactly when `t >= now + b` - for EVERY source timestamp `ts` (past, present or future) of the sample -/
+theorem C27_timeout_any_timestamp (s : St) (k : Nat) (v : Int) (ts now b : Int) (sn : Nat)
+    (hf : fullFront s k = some sn) (hr : s.qos.reliable = true) (hu : isAcked s sn = false) (hp : s.pending = none)
+    (hb : s.qos.maxBlocking = some b) (t : Int) :
+    (tick (methodWrite s k v ts now).1 t).2.reply = some .timeout ↔ t ≥ now + b := by
+  have hs := (C27_blocks s k v ts now sn hf hr hu hp).2.2.2
+  have hpend : (methodWrite s k v ts now).1.pending
+      = some { key := k, val := v, ts := ts, expiration := some (now + b) } := by
+    rw [hs]; simp [expirationOf, hb]
+  constructor
+  · intro h
+    obtain ⟨t', p, ex, he, hp', hx, hge⟩ := C27_timeout_only_at_expiry (methodWrite s k v ts now).1 (.tick t) h
+    cases he
+    rw [hpend] at hp'
+    cases hp'
+    cases hx
+    exact hge
+  · intro h
+    exact (C27_timeout_at_expiry _ t _ (now + b) hpend rfl h).1
+
+/-- C27 (an instance that is unregistered while a write on it is parked): the parked write still waits for the
+    acknowledgement of the oldest sample - the instance entry and its samples stay, `fullFront` does not look at the
+    registration flag - so unregister_instance + worker iteration neither answers the write nor evicts anything -/
+theorem C27_unregister_keeps_blocking (s : St) (p : Pending) (sn : Nat) (ts now t : Int)
+    (hp : s.pending = some p) (hf : fullFront s p.key = some sn) (hr : s.qos.reliable = true)
+    (hu : isAcked s sn = false) (hlife : s.qos.lifespan = none)
+    (hex : ∀ e, p.expiration = some e → t < e) :
+    (tick (step s (.unregister p.key ts now)).1 t).2.reply = none ∧
+    (tick (step s (.unregister p.key ts now)).1 t).2.evicted = [] := by
+  have hrs : ∀ x, removeStale s x = s := by intro x; simp [removeStale, hlife]
+  have hstep : (step s (.unregister p.key ts now)).1 = (unregisterW s p.key ts now).1 := by
+    simp only [step, hrs]
+  rw [hstep]
+  have hu' := unregisterW_frame s p.key ts now
+  generalize hs' : (unregisterW s p.key ts now).1 = s' at hu'
+  obtain ⟨hq, hpend, hack, hins⟩ := hu'
+  have hff : fullFront s' p.key = some sn := by
+    obtain ⟨d, i, hd, hi, hlen, hhead⟩ := fullFront_some hf
+    rcases hins with hi' | hi'
+    · unfold fullFront; rw [hq, hd, hi', hi]; simp [hlen, hhead]
+    · have hfc : findInst p.key (clearReg p.key s.insts) = some { i with registered := false } := by
+        have : ∀ l : List Inst, ∀ j, findInst p.key l = some j →
+            findInst p.key (clearReg p.key l) = some { j with registered := false } := by
+          intro l
+          induction l with
+          | nil => intro j hj; simp [findInst] at hj
+          | cons x xs ih =>
+            intro j hj
+            simp only [findInst] at hj
+            simp only [clearReg]
+            split
+            · rename_i hk
+              simp only [hk, if_true, Option.some.injEq] at hj
+              subst hj; simp [findInst, hk]
+            · rename_i hk
+              simp only [hk, if_false] at hj
+              simp [findInst, hk, ih j hj]
+        exact this _ _ hi
+      unfold fullFront; rw [hq, hd, hi', hfc]; simp [hlen, hhead]
+  have hrs' : removeStale s' t = s' := by simp [removeStale, hq, hlife]
+  have hct : checkTimeout s' t = (s', none) := by
+    unfold checkTimeout
+    rw [hpend, hp]
+    simp only
+    cases hx : p.expiration with
+    | none => rfl
+    | some e =>
+      have := hex e hx
+      simp only
+      rw [if_neg (by omega)]
+  have hcw : canWrite s' p.key = false := by
+    unfold canWrite
+    rw [hff, hq, hr]
+    simp only [Bool.not_true, Bool.false_or]
+    show isAckedBy s'.proxies sn = false
+    rw [hack]; exact hu
+  have hpp : processPending s' t = (s', Out.none) := by
+    simp [processPending, hpend, hp, hcw]
+  simp [tick, tickRest, hrs', hct, hpp, pickReply, Out.none]
 
 /-- non-vacuity / regression witness: KEEP_LAST(1), RELIABLE, max_blocking 130 ms, one reliable reader that has
     acknowledged nothing: the second write to the instance is parked, an iteration at +100 ms leaves it parked, the
@@ -232,5 +319,11 @@ example : (step exS1 (.write 7 11 0 0)).2.reply = none ∧
 /-- the hypotheses of C27_blocks are satisfiable (the state above) -/
 example : fullFront exS1 7 = some 1 ∧ exS1.qos.reliable = true ∧ isAcked exS1 1 = false ∧ exS1.pending = none := by
   decide
+
+/-- the same for a write that is NOT answered: before now + b every iteration leaves it parked (or completes it
+    after an acknowledgement), it never times out early because its source timestamp is old -/
+example : (step (step exS1 (.write 7 11 (-5000000000) 0)).1 (.tick 100000000)).2.reply = none ∧
+    (step (step exS1 (.write 7 11 (-5000000000) 0)).1 (.tick 130000000)).2.reply = some .timeout ∧
+    (step (step exS1 (.write 7 11 5000000000 0)).1 (.tick 130000000)).2.reply = some .timeout := by decide
 
 end DustVerif.Wrt
